@@ -125,6 +125,12 @@ def gen_literal(rng) -> dict:
         # Literal de-duplicates by (type, value); keep declared members distinct by ==
         if not any(v == w and type(v) is type(w) for w in vals):
             vals.append(v)
+    if rng.random() < 0.25:
+        # a text and the value that text reads as, both declared: "1" is not 1
+        text, val = rng.choice([("1", 1), ("true", True), ("null", None), ("2", 2), ("0", 0)])
+        for m in (text, val) if rng.random() < 0.5 else (val, text):
+            if not any(m == w and type(m) is type(w) for w in vals):
+                vals.append(m)
     return {"k": "lit", "v": vals}
 
 
